@@ -207,6 +207,75 @@ fn goal_order(case: &Value) {
     println!("{}", serde_json::to_string(&json!({"order": table})).unwrap());
 }
 
+mod termination_replay {
+    use std::cmp::Ordering;
+    use vrp_core::rosomaxa::prelude::*;
+    use vrp_core::rosomaxa::utils::Timer;
+
+    pub struct Sol;
+    impl HeuristicSolution for Sol {
+        fn fitness(&self) -> impl Iterator<Item = Float> {
+            std::iter::empty()
+        }
+        fn deep_copy(&self) -> Self {
+            Sol
+        }
+    }
+    pub struct Obj;
+    impl HeuristicObjective for Obj {
+        type Solution = Sol;
+        fn total_order(&self, _: &Sol, _: &Sol) -> Ordering {
+            Ordering::Equal
+        }
+    }
+    pub struct Ctx {
+        pub stats: HeuristicStatistics,
+        pub objective: Obj,
+    }
+    impl HeuristicContext for Ctx {
+        type Objective = Obj;
+        type Solution = Sol;
+        fn objective(&self) -> &Obj {
+            &self.objective
+        }
+        fn selected(&self) -> Box<dyn Iterator<Item = &'_ Sol> + '_> {
+            Box::new(std::iter::empty())
+        }
+        fn ranked(&self) -> Box<dyn Iterator<Item = &'_ Sol> + '_> {
+            Box::new(std::iter::empty())
+        }
+        fn statistics(&self) -> &HeuristicStatistics {
+            &self.stats
+        }
+        fn selection_phase(&self) -> SelectionPhase {
+            SelectionPhase::Initial
+        }
+        fn environment(&self) -> &Environment {
+            unimplemented!()
+        }
+        fn on_initial(&mut self, _: Sol, _: Timer) {}
+        fn on_generation(&mut self, _: Vec<Sol>, _: Float, _: Timer) {}
+        fn on_result(self) -> HeuristicResult<Obj, Sol> {
+            unimplemented!()
+        }
+    }
+}
+
+fn max_generation(case: &Value) {
+    use termination_replay::*;
+    use vrp_core::rosomaxa::prelude::*;
+    use vrp_core::rosomaxa::termination::{MaxGeneration, Termination};
+    let mut ctx = Ctx { stats: HeuristicStatistics::default(), objective: Obj };
+    ctx.stats.generation = case["generation"].as_u64().unwrap() as usize;
+    let termination = MaxGeneration::<Ctx, Obj, Sol>::new(case["limit"].as_u64().unwrap() as usize);
+    let estimate = termination.estimate(&ctx);
+    let out = json!({
+        "estimate": if estimate.is_nan() { Value::String("NaN".into()) } else { json!(estimate) },
+        "is_termination": termination.is_termination(&mut ctx),
+    });
+    println!("{}", serde_json::to_string(&out).unwrap());
+}
+
 /// Time-dependent routing replay through the public constructor.
 fn time_aware(case: &Value) {
     let floats = |v: &Value| v.as_array().unwrap().iter().map(|x| x.as_f64().unwrap()).collect::<Vec<_>>();
@@ -246,6 +315,9 @@ fn main() {
     }
     if case["kind"] == "time_aware" {
         return time_aware(&case);
+    }
+    if case["kind"] == "max_generation" {
+        return max_generation(&case);
     }
 
     let closed = case["closed"].as_bool().unwrap_or(true);
